@@ -68,6 +68,9 @@ def gen_cases(tier, rng):
                                 for cval in ((0, -4) if mode in ("constant", "linear_ramp") else (0,)):
                                     cases.append({"op": "deltas", "shape": sh, "axis": axis, "target_axis": tgt, "K": K,
                                                   "cat": cat, "W": W, "mode": mode, "cval": cval})
+                                if mode == "constant":  # the same extension through a callable padding mode
+                                    cases.append({"op": "deltas", "shape": sh, "axis": axis, "target_axis": tgt, "K": K,
+                                                  "cat": cat, "W": W, "mode": mode, "cval": 5, "callable": True})
     rng.shuffle(cases)
     n = 2500 if tier == "quick" else 30000
     return cases[:n]
@@ -109,9 +112,18 @@ def expected_cell(cell, xflat, cval=0):
     return Fraction(tot, cell["den"])
 
 
+def pad_with(vector, pad_width, iaxis, kwargs):
+    """numpy's own example of a callable padding mode (numpy.pad documentation): a constant `padder` on both sides"""
+    pad_value = kwargs.get("padder", 10)
+    vector[:pad_width[0]] = pad_value
+    vector[-pad_width[1]:] = pad_value
+
+
 def pad_kwargs(c):
     """keyword arguments handed through to numpy.pad"""
     mode = c["pad"] if c["op"] == "stack" else c["mode"]
+    if c.get("callable"):
+        return {"padder": c["cval"]}
     if c.get("cval", 0) == 0:
         return {}
     return {"constant_values": c["cval"]} if mode == "constant" else {"end_values": c["cval"]}
@@ -120,7 +132,8 @@ def pad_kwargs(c):
 def build(c):
     if c["op"] == "stack":
         return post.Stack(c["V"], time_axis=c["time_axis"], pad_mode=None if c["pad"] == "none" else c["pad"], **pad_kwargs(c))
-    return post.Deltas(c["K"], target_axis=c["target_axis"], concatenate=c["cat"], context_window=c["W"], pad_mode=c["mode"], **pad_kwargs(c))
+    return post.Deltas(c["K"], target_axis=c["target_axis"], concatenate=c["cat"], context_window=c["W"],
+                       pad_mode=pad_with if c.get("callable") else c["mode"], **pad_kwargs(c))
 
 
 def check_case(run, c, row, nprng, k):
@@ -200,7 +213,7 @@ def instance_reuse(run, cases, rows, nprng):
         if c["op"] == "stack":
             key = ("stack", c["V"], c["time_axis"], c["pad"], c.get("cval", 0))
         else:
-            key = ("deltas", c["K"], c["target_axis"], c["cat"], c["W"], c["mode"], c.get("cval", 0))
+            key = ("deltas", c["K"], c["target_axis"], c["cat"], c["W"], c["mode"], c.get("cval", 0), bool(c.get("callable")))
         groups.setdefault(key, []).append((c, row))
     n = 0
     for key, items in groups.items():
